@@ -48,7 +48,9 @@ CHECKS["C08"] = ("fault_enumeration", "DESIGN.md §7 C08",
 CHECKS["C17"] = ("exploration", "DESIGN.md §7 C17",
     "deterministic simulation with storage fault injection: Guardrails payloads from an independent masker on a simulated device; seeded keys/options/positions; bit-rot faults; checksum safety invariant",
     "Seeded search over environmental keys of every length 2-256, guard-option subsets, positions and raw/XorEncoded "
-    "containers; fault-free runs must recover configuration, key (mod tiling), guard settings, checksum and offsets; runs "
+    "containers (positions at block boundaries of the stored file and of the decoded stream); fault-free runs must recover "
+    "configuration, the key itself (its shortest tile, not a repetition), guard settings, checksum and offsets, also as the third step of "
+    "a history with keys of related lengths; runs "
     "with injected bit flips (settings, key-bearing padding, checksum, marker, guard settings) or a wrong stored checksum are "
     "judged only by the safety invariant 'configuration reported => checksum matches the stored one'; 55% of the fault runs "
     "are two-step histories in one process (genuine image then its corrupted copy, or the reverse) whose second verdict must "
@@ -63,7 +65,9 @@ CHECKS["C07"] = ("exploration", "DESIGN.md §4, §7 C07",
     "a keyed observer that sees task responses late and one whose capture starts in mid-session - and "
     "compared with ground truth recorded at the source; unsolicited task responses and raw multi-callback POSTs carry command / "
     "callback ids outside the library's tables; restarts may run the same client object again; routing and rejection of "
-    "unrelated requests are checked; bounded liveness after the last fault.",
+    "unrelated requests are checked; bounded liveness after the last fault; a decoder that has decoded a task response must reject "
+    "its twin with one ciphertext bit flipped; 8% of the runs run ONE client object for configuration A and then for B (transport down) "
+    "and judge what it hands to the transport by B.",
     "Trusts the independent reference server/codec (anchored to captured Cobalt Strike traffic), PyCryptodome, httpx request building; pcap.py itself is not executed (no tshark), its per-packet driver logic is mirrored.")
 CHECKS["C19"] = ("exploration", "DESIGN.md §4, §7 C19",
     "deterministic simulation with fault injection: long-lived real client sessions with crash/restart, sleep seam observation, reference handler registry, bounded liveness",
@@ -91,8 +95,9 @@ CHECKS["C06"] = ("exploration", "DESIGN.md §7 C06",
     "deterministic simulation: check-ins between the library and an independent PKCS#1/struct peer with seeded padding; rogue sender; plus sessions",
     "Seeded search over metadata fields at full width, info lengths up to and beyond the PKCS#1 limit, RSA-1024/2048 "
     "fixtures; library-encrypted blobs are decrypted and parsed by the reference peer and vice versa; blobs under another "
-    "key, random blobs, bit-flipped blobs and RSA-valid plaintexts without the magic must raise ValueError; key derivation "
-    "is compared with SHA-256 halves.",
+    "key, random blobs, bit-flipped blobs, RSA-valid plaintexts without the magic and structures with a lying size field must raise "
+    "ValueError - also every time one RSA-only traffic decoder is shown them again; key derivation is compared with SHA-256 halves, "
+    "for the library's own client too (ids whose random bytes start with a zero byte).",
     "Trusts PyCryptodome PKCS1_v1_5/RSA and the struct-based reference parser.")
 CHECKS["C16"] = ("exploration", "DESIGN.md §7 C16",
     "deterministic simulation: messages shaped by the independent serialiser of the noise actor and every message of full sessions must parse back to exactly their parts; constructed malformed start lines",
